@@ -396,10 +396,34 @@ def check(ctx):
     tmp = tempfile.mkdtemp(prefix="kaverif-c19-")
     try:
         _check(ctx, rng, R, C, CU, tmp)
+        _odd_paths(ctx, tmp)
     finally:
         shutil.rmtree(tmp, ignore_errors=True)
         C.CONFIG.clear()
         C.HAVE_READ = True
+
+
+def _odd_paths(ctx, tmp):
+    """history-path / currency-path values the OS itself refuses (embedded NUL, over-long, a file as parent):
+    saving history must still not prevent exit, start-up must still work — whatever exception class the OS call raises"""
+    cases = [("nul-in-history-path", b"history-path = @HOME@/hist\x00ory/log\n"),
+             ("nul-in-history-name", b"history-path = @HOME@/ka-hist\x00ory\n"),
+             ("overlong-history-path", b"history-path = @HOME@/" + b"x" * 5000 + b"\n"),
+             ("nul-in-currency-path", b"currency-path = @HOME@/cur\x00rency\n"),
+             ("history-path-under-a-file", b"history-path = @HOME@/.config/ka/config/sub/hist\n")]
+    for nm, cfg in cases:
+        home = os.path.join(tmp, "odd-" + nm)
+        os.makedirs(os.path.join(home, ".config", "ka"))
+        with open(os.path.join(home, ".config", "ka", "config"), "wb") as f:
+            f.write(cfg.replace(b"@HOME@", home.encode()))
+        rc, out, err = run_py(home, ["-m", "ka.cli"], stdin=b"10/4\n%q\n")
+        ctx.count("odd-path:" + nm, bucket="odd-paths")
+        how = "HOME with config %r; printf '10/4\\n%%q\\n' | python -m ka.cli" % cfg[:60]
+        if rc != 0 or "Traceback" in err or "2 1/2" not in out:
+            ctx.violation("odd-path:" + nm, nm, "exit 0, result printed, at most a warning", "exit %r, stderr %s" % (rc, err[-300:]), how)
+        rc, out, err = run_py(home, ["-m", "ka.cli", "1+1"])
+        if rc != 0 or "Traceback" in err or out.strip() != "2":
+            ctx.violation("odd-path-oneshot:" + nm, nm, "2", "exit %r, %r %s" % (rc, out, err[-300:]), "HOME with config %r; python -m ka.cli 1+1" % cfg[:60])
 
 
 def _check(ctx, rng, R, C, CU, tmp):
